@@ -11,17 +11,26 @@ PROPS = {}
 UNITS["core"] = dict(
     name="core",
     stage=[("repo",), ("crate", "harness/core"), ("lock",), SYM, ("shared", "models/mcodec.rs", "src/mcodec.rs")],
+    # Kani's memset check on `mem::zeroed::<()>()` in Header::zero_sized_extensions (a zero-sized write through a
+    # dangling-but-aligned pointer, which Rust defines as a no-op): spurious, filtered by its exact identity
+    ignore_checks=[r"memset destination region writeable @ .*core/src/ptr/mod\.rs:\d+ in std::ptr::write_bytes::<\(\)>"],
     native_features=["replay"],
     functions=[
         ("p2panda-core/src/operation.rs", "validate_operation", r"pub fn validate_operation"),
         ("p2panda-core/src/operation.rs", "validate_header", r"pub fn validate_header"),
         ("p2panda-core/src/operation.rs", "Header::verify", r"pub fn verify\(&self\) -> bool"),
         ("p2panda-core/src/serde.rs", "Serialize for Header", r"impl<E> Serialize for Header<E>"),
+        ("p2panda-core/src/serde.rs", "Deserialize for Header", r"impl<'de, E> Deserialize<'de> for Header<E>"),
         ("p2panda-core/src/prune.rs", "validate_prunable_backlink", r"pub fn validate_prunable_backlink"),
         ("p2panda-core/src/operation.rs", "validate_backlink", r"pub fn validate_backlink"),
         ("p2panda-core/src/timestamp.rs", "HybridTimestamp::increment", r"pub fn increment\(self\) -> Self \{", r"impl HybridTimestamp"),
     ],
     harnesses=[
+        dict(name="c02::roundtrip_shape_00", prop="C02", timeout=900, encodes="Serialize/Deserialize for Header<()>, Header::{to_bytes,verify}, TryFrom<&[u8]> for Header on the model codec",
+             bounds="presence shape (no payload hash, no backlink), all field values"),
+        dict(name="c02::roundtrip_shape_11", prop="C02", timeout=900, encodes="as roundtrip_shape_00", bounds="shape (payload hash, backlink)"),
+        dict(name="c02::roundtrip_shape_01", prop="C02", tier="thorough", timeout=1800, encodes="as roundtrip_shape_00", bounds="shape (no payload hash, backlink)"),
+        dict(name="c02::roundtrip_shape_10", prop="C02", tier="thorough", timeout=1800, encodes="as roundtrip_shape_00", bounds="shape (payload hash, no backlink)"),
         dict(name="c01::accepted_is_well_formed", prop="C01", timeout=180,
              encodes="validate_operation, validate_header (Header::verify = symbolic verdict), Body::hash/size",
              bounds="all field values and all 8 presence patterns symbolic; body absent or 0..4 symbolic bytes"),
@@ -90,6 +99,20 @@ PROPS["C01"] = dict(
                 "idealised signature: accepted => signed, verified, version 1, payload/backlink info consistent, body matches; every single-field mutation of an honestly "
                 "signed header (incl. any signature byte) and every 1-byte/length change of a body is rejected — for ALL field values, not the handful the tests sample."),
     level_note="Trusted: Kani/CBMC; ciborium replaced by an injective model codec; Ed25519 and BLAKE3 idealised; the async ingest glue is outside the claim.",
+)
+PROPS["C02"] = dict(
+    units=["core"],
+    trusted_base=_CORE_TB + ["model codec stands for ciborium on both the encode and the decode side (injective, fixed-width, tagged, length-prefixed)",
+                             "stub: VerifyingKey::from_bytes accepts every 32-byte string (no point decompression)",
+                             "spurious Kani check filtered by exact identity: memset on mem::zeroed::<()>() in Header::zero_sized_extensions"],
+    assumptions=["E = () (no extensions)"],
+    bounds="4 presence shapes x all field values incl. all 64 signature bytes (2 shapes quick, 4 thorough)",
+    outside=("ciborium's byte-level CBOR itself; the Node API extensions (p2panda/src/operation.rs): harnesses over its Serialize/Deserialize impls (Basic round trip, Causal determinism with a model "
+             "HashSet) did not finish within 15-30 min in Kani even with concrete values, cause not isolated -- by reading, serde emits CausalExtensions::previous (HashSet<Hash>) in iteration order, so equal "
+             "causal values can encode to different bytes; 'still verifies' follows from the round trip being exact for all values (verification is a function of the value for E = ())"),
+    level_text=("Bounded model checking of p2panda's own Serialize/Deserialize impls for Header<()> on a model codec: for every field value and presence shape decode(encode(h)) reproduces every field exactly, "
+                "which also makes the encoding injective (equal bytes <=> equal headers), so hash and signature validity depend on the header value only. PARTIAL: Node extensions and byte-level CBOR are outside."),
+    level_note="Trusted: Kani/CBMC; ciborium replaced by an injective model codec. PARTIAL claim (E = () only).",
 )
 PROPS["C05"] = dict(
     units=["core"], trusted_base=_CORE_TB,
@@ -334,7 +357,7 @@ UNITS["enc"] = dict(
     harnesses=[
         dict(name="message_scheme::ratchet::verif_proofs::two_requests_windows_le2", prop="C34", timeout=600,
              encodes="DecryptionRatchet::secret_for_decryption, RatchetSecret::ratchet_forward (sender oracle)",
-             bounds="2 requests over generations 0..3, max_forward and ooo_tolerance in 0..=2, all orders/losses/duplicates"),
+             bounds="2 requests over generations 0..3, ooo_tolerance in 0..=2, max_forward in 0..=3, all orders/losses/duplicates"),
         dict(name="message_scheme::ratchet::verif_proofs::three_requests_windows_le2", prop="C34", timeout=900,
              encodes="as above", bounds="3 requests over generations 0..3, windows 0..=2"),
         dict(name="message_scheme::ratchet::verif_proofs::window_arithmetic_any_head", prop="C34", timeout=600,
@@ -353,7 +376,7 @@ UNITS["enc"] = dict(
              encodes="SecretBundle::generate", bounds="latest timestamp = u64::MAX, every wall-clock second"),
         dict(name="key_registry::verif_proofs::onetime_accept_and_lookup", prop="C38", timeout=600,
              encodes="KeyRegistry::add_onetime_bundle, PreKeyRegistry<OneTimeKeyBundle>::key_bundle, OneTimeKeyBundle::verify, Lifetime::verify",
-             bounds="1 bundle with arbitrary u64 lifetime and signature verdict, two independent clock readings add <= lookup"),
+             bounds="1 bundle with arbitrary u64 lifetime and signature verdict, two independent clock readings"),
         dict(name="key_registry::verif_proofs::onetime_two_bundles_lookup", prop="C38", timeout=600,
              encodes="as above", bounds="2 accepted bundles, lookup at a later arbitrary time"),
         dict(name="key_registry::verif_proofs::longterm_accept", prop="C38", timeout=600,
@@ -404,7 +427,7 @@ PROPS["C36"] = dict(
 )
 PROPS["C38"] = dict(
     units=["encs"],
-    trusted_base=_ENC_TB + ["stub: SystemTime::now / duration_since(UNIX_EPOCH) return an arbitrary second, chosen independently at add time and at lookup time (lookup >= add)",
+    trusted_base=_ENC_TB + ["stub: SystemTime::now / duration_since(UNIX_EPOCH) return an arbitrary second, chosen independently at add time and at lookup time (the clock may also step backwards)",
                             "stub: xeddsa_verify returns a symbolic verdict per bundle (natively bundles are really signed or carry a garbage signature)"],
     assumptions=["<= 2 bundles per member", "clock < 2^62 s"],
     bounds="arbitrary u64 lifetimes, arbitrary signature verdicts, two clock readings",
